@@ -1,5 +1,6 @@
 import AvroModel.Lemmas.ReadOk
 import AvroModel.Lemmas.BuildOk
+import AvroModel.Lemmas.ReadBudget
 /-!
 # C04 — Projection: fields the target struct lacks are skipped without side effects
 
@@ -18,6 +19,31 @@ theorem skip_exact (c : Codec) (a : ASchema) (hcf : CodecFor c a) (n : Nat) (p :
     (he : encode p a v = some bs) :
     skip env n c (bs ++ rest) = .ok rest ∨ skip env n c (bs ++ rest) = .fuel :=
   (skipExactAt env n).skip c a p v bs rest hcf he
+
+/-- **Skip exactness with an explicit budget**: with at least `readBudget c v = Codec.sz c + 2 * Value.sz v + 2`
+steps (a function of the codec tree and the datum only: not of the writer's plan, not of what follows),
+skipping any legal encoding of `v` returns exactly what follows the datum — no "or out of budget"
+alternative. -/
+theorem skip_exact_budget (c : Codec) (a : ASchema) (hcf : CodecFor c a) (n : Nat) (p : Plan) (v : Value) (bs rest : Bytes)
+    (he : encode p a v = some bs) (hn : readBudget c v ≤ n) :
+    skip env n c (bs ++ rest) = .ok rest :=
+  skip_budget env hcf he hn rest
+
+/-- the same for codecs obtained from construction -/
+theorem skip_exact_built_budget (reg : Reg) (hreg : ∀ id, reg.custom id = none) (nb fa n : Nat)
+    (s : Schema) (T : Option GoType) (oe : Bool) (c : Codec) (a : ASchema) (p : Plan) (v : Value) (bs rest : Bytes)
+    (hb : buildCodec reg nb s T oe = .ok c) (hc : classify fa s = some a) (he : encode p a v = some bs)
+    (hn : readBudget c v ≤ n) :
+    skip env n c (bs ++ rest) = .ok rest :=
+  skip_exact_budget env c a ((buildOkAt reg hreg nb).build s T oe c hb fa a hc) n p v bs rest he hn
+
+/-- non-vacuity: a map with a size-prefixed block and a plain block, skipped with budget
+`readBudget = 0 + 1 + 2 * 3 + 2 = 9`, whatever follows -/
+example (rest : Bytes) :
+    skip env 9 (.map (.int 64 false) false) ([1, 6, 2, 97, 2, 2, 2, 98, 4, 0] ++ rest) = .ok rest :=
+  skip_exact_budget env (.map (.int 64 false) false) (.map .long) (.map .intL) 9
+    (.node [(1, true), (1, false)] [.leaf, .leaf]) (.map [[97], [98]] [.int 1, .int 2]) _ rest
+    (by decide +kernel) (by decide +kernel)
 
 /-- the same for codecs obtained from construction (typed or untyped: `T = none` is the skip codec
 built for a field the target struct lacks) -/
